@@ -72,6 +72,22 @@ class Ctx:
         kf = os.path.join(ROOT, "known_findings.json")
         self.known = json.load(open(kf)) if os.path.exists(kf) else {"findings": []}
 
+    # ---------------------------------------------------------------- pipeline lock
+    # Several checks may run at once in one /verif (C01/C07/C08 share Gen/WriterConsts.lean, every Props module shares
+    # .lake).  Regenerating a Gen file (stale outputs are deleted first) while ANOTHER check's `lake build` reads it breaks
+    # that build.  So the whole Lean pipeline of a check — extract → lake build → axiom audit → oracle build — runs under
+    # one inter-process lock, taken at the first of those steps and released when the driver phase starts (or at finish).
+    def _pipe_acquire(self):
+        if getattr(self, "_pipe", None) is None:
+            f = open(os.path.join(BUILD, "pipeline.lock"), "w")
+            fcntl.flock(f, fcntl.LOCK_EX)
+            self._pipe = f
+
+    def _pipe_release(self):
+        f = getattr(self, "_pipe", None)
+        if f is not None:
+            fcntl.flock(f, fcntl.LOCK_UN); f.close(); self._pipe = None
+
     # ---------------------------------------------------------------- logging
     def log(self, *a):
         print("[%s %6.1fs]" % (self.prop, time.time() - self.t0), *a, flush=True)
@@ -80,6 +96,7 @@ class Ctx:
     def extract(self, what, outputs):
         """run the translator `go run ./extract <what>` on /repo's working tree; stale outputs are
         removed first.  Returns (ok, log)."""
+        self._pipe_acquire()
         with Lock("extract"):
             for o in outputs:
                 try: os.remove(os.path.join(ROOT, o))
@@ -92,6 +109,7 @@ class Ctx:
 
     # ---------------------------------------------------------------- Lean
     def lean_build(self, targets, timeout=1500):
+        self._pipe_acquire()
         with Lock("lake"):
             rc, so, se = sh(["lake", "build"] + list(targets), cwd=LEAN, timeout=timeout)
         return rc == 0, so + se
@@ -215,6 +233,7 @@ class Ctx:
         return ["-modfile=" + alt]
 
     def go_build(self, pkg, name, tags="verif", race=False):
+        self._pipe_acquire()   # extractors may (re)generate Go sources too (go/internal/msgs/msgs_gen.go)
         out = os.path.join(BUILD, name)
         try: os.remove(out)
         except FileNotFoundError: pass
@@ -243,6 +262,7 @@ class Ctx:
         return out, p.returncode, p.stderr
 
     def run_driver(self, bin_path, args, timeout=1800, env=None):
+        self._pipe_release()
         e = dict(os.environ, VERIF_SEED=str(self.seed), VERIF_TIER=self.tier)
         if env: e.update(env)
         p = subprocess.run([bin_path] + list(args), capture_output=True, text=True, timeout=timeout, env=e)
@@ -306,6 +326,7 @@ class Ctx:
         return True
 
     def finish(self):
+        self._pipe_release()
         for k in self.known_hits:
             print("KNOWN-FINDING: property=%s %s: %s" % (self.prop, k["id"], k["what"]), flush=True)
         cov = self.coverage
